@@ -74,4 +74,14 @@ PROPS = {
              "rename. Found the in-place fs::write (fixed in 2c9b877).",
         note="Static ordering/provenance argument; rename(2) atomicity and the meaning of the std::fs APIs are trusted. "
              "Durability across power loss is not claimed. Path-deriving APIs (join/with_extension/..) are assumed to name a different file."),
+    "C20": dict(
+        module="c20", func="run", level="other", crates=["emmylua_code_analysis"],
+        technique="constant propagation of enum discriminants through per-checker call trees + registration table + CFG dominance / guard-edge analysis",
+        text="Decides the gating structure every configuration outcome depends on: (a) each checker can only emit codes "
+             "listed in its CODES (else `enables` cannot run it), exhaustively over all 41 checkers and ~190 report sites; "
+             "(b) every checker registered once, every code claimed; (c) a single gated constructor for diagnostics whose "
+             "push is unreachable from the false edges of the enable and suppression tests, severity from config first; "
+             "(d) diagnose_file cannot reach the checkers when disabled or for non-main workspaces, and the precedence chain "
+             "holds as path-order constraints; (e) undefined-global consults globals/globalsRegex.",
+        note="Per-program outcomes are not decided. Trusted: rustc MIR, emmyfacts, call-graph over-approximation (trait fan-out)."),
 }
